@@ -52,7 +52,7 @@ def list_modules():
 
 
 def plan(tier, seed):
-    return [{"name": f"first:{m}", "module": m, "seed": seed, "random_rounds": 3 if tier == "quick" else 25} for m in list_modules()]
+    return [{"name": f"first:{m}", "module": m, "seed": seed, "random_rounds": 3 if tier == "quick" else 150} for m in list_modules()]
 
 
 # ----------------------------------------------------------------------------- discovery
